@@ -315,35 +315,42 @@ STRUCT = {"mInsert": 1.5, "sInsert": 1.5, "qCons": 1.5, "mRemove": 4, "sRemove":
 
 
 def random_sequence(rng, length, wide, avoid=()):
+    """A seeded random operation sequence.  Two profiles: `mixed` (any operation any time, keys from the small
+    range 0..7 or a wide pool) and `grow first` (one map or set is grown to 20-40 elements, the other register
+    stays small, then structural operations dominate: split / union / filter / remove on trees of height 5-7
+    reach the deep rebalancing branches of join / balanced)."""
+    grow = 0
+    if rng.random() < 0.5 and length >= 16:
+        grow = rng.randint(length // 2, (3 * length) // 4)
     if wide:
-        pool = [rng.randint(-WIDE, WIDE) for _ in range(rng.randint(6, 40))]
+        pool = [rng.randint(-WIDE, WIDE) for _ in range(rng.randint(40, 64) if grow else rng.randint(6, 40))]
         pool += [p + d for p in pool[:6] for d in (-1, 1)] + [WIDE, -WIDE, 0]
     else:
-        pool = list(range(8))
+        pool = list(range(48)) if grow else list(range(8))
     names = [n for n in OPS if n not in avoid]
     fam = rng.random()
-    if fam < 0.3:
+    if grow:
+        f = "m" if fam < 0.5 else "s"
+        names = [n for n in names if n[0] == f or n in ("sFromKeys", "sToList", "sFromList")]
+        grower, big = f + "Insert", rng.randint(0, 1)
+    elif fam < 0.3:
         names = [n for n in names if n[0] == "m" or n == "sFromKeys"]
     elif fam < 0.55:
         names = [n for n in names if n[0] == "s" or n in ("qCons",)]
     elif fam < 0.7:
         names = [n for n in names if n[0] == "q" or n == "sToList"]
-    weights = [WEIGHTS.get(n, 1.0) for n in names]
-    # "grow first" profile: a burst of inserts builds trees of height 4-6, then structural operations
-    # (split / union / filter / remove ...) dominate, so that the deep rebalancing branches are reached
-    grow = 0
-    if rng.random() < 0.45 and length >= 12:
-        grow = rng.randint(length // 3, (2 * length) // 3)
-        growers = [n for n in ("mInsert", "sInsert", "qCons") if n in names] or ["mInsert"]
-        weights = [STRUCT.get(n, w) for n, w in zip(names, weights)]
+    weights = [(STRUCT if grow else WEIGHTS).get(n, 1.0) for n in names]
     ub = {k: 0 for k in ("m0", "m1", "s0", "s1", "q0", "q1")}
     ops = []
     tries = 0
     while len(ops) < length and tries < length * 20:
         tries += 1
-        name = rng.choice(growers) if len(ops) < grow else rng.choices(names, weights)[0]
+        growing = len(ops) < grow
+        name = grower if growing else rng.choices(names, weights)[0]
         cls = OPS[name][0]
         r = rng.randint(0, 1)
+        if growing:
+            r = big if rng.random() < 0.8 else 1 - big
         o = {"op": name, "r": r, "k": 0, "v": 0, "f": 0}
         if "k" in cls:
             o["k"] = rng.choice(pool)
@@ -872,7 +879,7 @@ def run(tier):
         "model_depth": mc.depth - 1, "model_universe": "keys {1,2,3}, values {0,1}, lists up to 4 elements, all 79 operations",
         "tlc_generated_behaviours": {"length1_exhaustive": len(behs1), "length2": len(behs2), "length2_exhaustive": not quick,
                                      "simulated_length6": len(behs_sim)},
-        "regression_witnesses": len(regress), "random_sequences": done, "random_max_length": 60, "key_ranges": ["0..7", f"+-{WIDE}"],
+        "regression_witnesses": len(regress), "random_sequences": done, "random_max_length": 60, "key_ranges": ["0..7", "0..47 (grow-first profile)", f"+-{WIDE}"],
         "operations_executed": stats.get("ops_rows", 0),
         "operations_validated": stats.get("ops_rows", 0) - stats.get("ops_skipped", 0),
         "operations_not_judged_after_a_deviation": stats.get("ops_skipped", 0),
